@@ -263,7 +263,10 @@ func runCheck(repo, prop, tier, fnFilter, outDir string, noReplay, verbose bool)
 	rep.print(verbose)
 	if fnFilter == "" {
 		evDir := filepath.Join(verifDir, "evidence")
-		if repo != "/repo" {
+		if d := os.Getenv("NSQVC_EVIDENCE_DIR"); d != "" {
+			evDir = d // selftest runs on a deliberately broken /repo must not overwrite the evidence of the real tree
+			os.MkdirAll(evDir, 0o755)
+		} else if repo != "/repo" {
 			evDir = filepath.Join(outDir, "evidence") // scratch copies never touch the committed evidence
 			os.MkdirAll(evDir, 0o755)
 		}
